@@ -290,43 +290,41 @@ double Interpolation::Local_Minimum(double x_1, double x_2)
 	libphysica::Check_For_Error(x_2 < x_1, "Interpolation::Local_Minimum()", "Faulty order of arguments.");
 	double f_left  = Interpolate(x_1);
 	double f_right = Interpolate(x_2);
-	int i_1		   = Locate(x_1);
-	int i_2		   = Locate(x_2);
-	if(i_1 == i_2)
-		return std::min(f_left, f_right);
-	else
-	{
-		// Find the smallest value of function_values between i_1+1 and i_2.
-		double min_entry = *std::min_element(function_values.begin() + i_1 + 1, function_values.begin() + i_2);
-		return std::min({f_left, min_entry, f_right});
-	}
+	double minimum = std::min(f_left, f_right);
+	// The pieces are monotone, hence the only other candidates are the (rescaled) function_values at the abscissae inside [x_1,x_2].
+	auto first = function_values.begin() + (std::lower_bound(x_values.begin(), x_values.end(), x_1) - x_values.begin());
+	auto last  = function_values.begin() + (std::upper_bound(x_values.begin(), x_values.end(), x_2) - x_values.begin());
+	if(first < last)
+		minimum = std::min(minimum, (prefactor < 0.0) ? prefactor * (*std::max_element(first, last)) : prefactor * (*std::min_element(first, last)));
+	return minimum;
 }
 
 double Interpolation::Local_Maximum(double x_1, double x_2)
 {
-	libphysica::Check_For_Error(x_2 < x_1, "Interpolation::Local_Minimum()", "Faulty order of arguments.");
+	libphysica::Check_For_Error(x_2 < x_1, "Interpolation::Local_Maximum()", "Faulty order of arguments.");
 	double f_left  = Interpolate(x_1);
 	double f_right = Interpolate(x_2);
-	int i_1		   = Locate(x_1);
-	int i_2		   = Locate(x_2);
-	if(i_1 == i_2)
-		return std::max(f_left, f_right);
-	else
-	{
-		// Find the largest value of function_values between i_1+1 and i_2.
-		double max_entry = *std::max_element(function_values.begin() + i_1 + 1, function_values.begin() + i_2);
-		return std::max({f_left, max_entry, f_right});
-	}
+	double maximum = std::max(f_left, f_right);
+	// The pieces are monotone, hence the only other candidates are the (rescaled) function_values at the abscissae inside [x_1,x_2].
+	auto first = function_values.begin() + (std::lower_bound(x_values.begin(), x_values.end(), x_1) - x_values.begin());
+	auto last  = function_values.begin() + (std::upper_bound(x_values.begin(), x_values.end(), x_2) - x_values.begin());
+	if(first < last)
+		maximum = std::max(maximum, (prefactor < 0.0) ? prefactor * (*std::min_element(first, last)) : prefactor * (*std::max_element(first, last)));
+	return maximum;
 }
 
 double Interpolation::Global_Minimum()
 {
-	return *std::min_element(function_values.begin(), function_values.end());
+	if(prefactor < 0.0)
+		return prefactor * (*std::max_element(function_values.begin(), function_values.end()));
+	return prefactor * (*std::min_element(function_values.begin(), function_values.end()));
 }
 
 double Interpolation::Global_Maximum()
 {
-	return *std::max_element(function_values.begin(), function_values.end());
+	if(prefactor < 0.0)
+		return prefactor * (*std::min_element(function_values.begin(), function_values.end()));
+	return prefactor * (*std::max_element(function_values.begin(), function_values.end()));
 }
 
 void Interpolation::Save_Function(std::string filename, unsigned int points)
@@ -447,17 +445,19 @@ void Interpolation_2D::Multiply(double factor)
 // Function properties
 double Interpolation_2D::Global_Minimum()
 {
-	std::vector<double> row_minima;
+	// A negative prefactor turns the largest tabulated value into the smallest.
+	std::vector<double> row_extrema;
 	for(auto& row : function_values)
-		row_minima.push_back(*std::min_element(row.begin(), row.end()));
-	return *std::min_element(row_minima.begin(), row_minima.end());
+		row_extrema.push_back((prefactor < 0.0) ? *std::max_element(row.begin(), row.end()) : *std::min_element(row.begin(), row.end()));
+	return prefactor * ((prefactor < 0.0) ? *std::max_element(row_extrema.begin(), row_extrema.end()) : *std::min_element(row_extrema.begin(), row_extrema.end()));
 }
 double Interpolation_2D::Global_Maximum()
 {
-	std::vector<double> row_maxima;
+	// A negative prefactor turns the smallest tabulated value into the largest.
+	std::vector<double> row_extrema;
 	for(auto& row : function_values)
-		row_maxima.push_back(*std::max_element(row.begin(), row.end()));
-	return *std::max_element(row_maxima.begin(), row_maxima.end());
+		row_extrema.push_back((prefactor < 0.0) ? *std::min_element(row.begin(), row.end()) : *std::max_element(row.begin(), row.end()));
+	return prefactor * ((prefactor < 0.0) ? *std::min_element(row_extrema.begin(), row_extrema.end()) : *std::max_element(row_extrema.begin(), row_extrema.end()));
 }
 
 void Interpolation_2D::Save_Function(std::string filename, unsigned int x_points, unsigned int y_points)
